@@ -192,8 +192,8 @@ func (lam *Lambda) BoundCall(s *Scope, depth int) (result Object) {
 	d2 := depth + 1
 	for _, form := range lam.Forms {
 		result = s.Eval(form, d2)
-		if rr, ok := result.(*ReturnResult); ok {
-			if rr.Tag == s.Name && s.Name != Symbol("lambda") {
+		if IsExit(result) {
+			if rr, ok := result.(*ReturnResult); ok && rr.Tag == s.Name && s.Name != Symbol("lambda") {
 				result = rr.Result
 			}
 			break
